@@ -16,7 +16,7 @@ running call finishes first (`finish j`), whether the consumer goes on or closes
 element `i`), how the source ends after `n` elements, and the flags.
 
 Assumed (trusted base, see DESIGN §4): the hand-off queue is FIFO with `cap+1` slots, the pool
-starts calls in submission order, runs at most `conc` at a time, and `cancel()` succeeds exactly
+runs at most `conc` at a time, and `cancel()` succeeds exactly
 on calls that have not started.
 -/
 namespace Fifo
@@ -71,7 +71,7 @@ structure State where
 
 inductive Act where
   | pull | srcEnd | srcRaise | fcheck | stopSeen | submit | preFail | put | putEnd | putExc
-  | start | finish (j : Nat)
+  | start (j : Nat) | finish (j : Nat)
   | get | yld | raiseItem | next | close | setStop | drainCancel | drainSkip | drainMark | drainEmpty | join
   deriving Repr, DecidableEq
 
@@ -114,13 +114,12 @@ def step (c : Cfg) (s : State) : Act → Option State
   | .putExc =>
     if s.fpc = .putExc ∧ s.queue.length < c.cap + 1 then
       some { s with fpc := .done, queue := s.queue ++ [.excMark] } else none
-  | .start =>
-    match s.pending with
-    | j :: rest =>
-      if s.running.length < c.conc then
-        some { s with pending := rest, running := s.running ++ [j], calls := j :: s.calls }
-      else none
-    | [] => none
+  | .start j =>
+    -- a pool worker enters the worker function for call `j`.  Any pending call may be the next
+    -- one to *enter* (pick-up from the pool's FIFO work queue and function entry are not atomic).
+    if j ∈ s.pending ∧ s.running.length < c.conc then
+      some { s with pending := s.pending.erase j, running := s.running ++ [j], calls := j :: s.calls }
+    else none
   | .finish j =>
     if j ∈ s.running then some { s with running := s.running.erase j, finished := j :: s.finished } else none
   | .get =>
@@ -182,9 +181,9 @@ instance (s : State) : Decidable (Final s) := by unfold Final; exact inferInstan
 
 /-- all actions that could conceivably be enabled in `s` (used by the driver and for progress) -/
 def allActs (s : State) : List Act :=
-  [.pull, .srcEnd, .srcRaise, .fcheck, .stopSeen, .submit, .preFail, .put, .putEnd, .putExc, .start,
+  [.pull, .srcEnd, .srcRaise, .fcheck, .stopSeen, .submit, .preFail, .put, .putEnd, .putExc,
    .get, .yld, .raiseItem, .next, .close, .setStop, .drainCancel, .drainSkip, .drainMark, .drainEmpty, .join]
-  ++ s.running.map .finish
+  ++ s.running.map .finish ++ s.pending.map .start
 
 /-- what the consumer must see, as indices: the whole input, cut before the first element whose
     result is an exception when exceptions are not returned -/
